@@ -279,6 +279,61 @@ theorem pyNe_eq_not {c : CmpCfg} (hE : ∀ f, f ∈ c.elNe ↔ f ∈ c.elEq) (hI
   cases a <;> cases b <;> simp [pyNe, pyEq, elNe_eq_not hE, isoNe_eq_not hE hI]
 
 
+
+/-! ### equality is value-based: `==` holds exactly when all fields coincide (every constructible object) -/
+
+theorem elEq_iff_eq {c : CmpCfg} (h : ∀ f : EField, f ∈ c.elEq) (a b : El) : elEq c a b = true ↔ a = b := by
+  constructor
+  · intro he
+    simp only [elEq, List.all_eq_true] at he
+    have h1 := he .name (h _)
+    have h2 := he .symbol (h _)
+    have h3 := he .atomicNumber (h _)
+    have h4 := he .atomicWeight (h _)
+    simp only [efEq, Bool.and_eq_true] at h1 h2 h3 h4
+    cases a; cases b
+    simp only [El.mk.injEq]
+    exact ⟨nbeq.mp h1, nbeq.mp h2, nbeq.mp h3, nbeq.mp h4.1, nbeq.mp h4.2⟩
+  · rintro rfl
+    exact elEq_refl c a
+
+theorem isoEq_iff_eq {c : CmpCfg} (hE : ∀ f : EField, f ∈ c.elEq) (hI : ∀ f : IField, f ∈ c.isoEq) (a b : Iso) :
+    isoEq c a b = true ↔ a = b := by
+  constructor
+  · intro he
+    simp only [isoEq, List.all_eq_true] at he
+    have hb : elEq c a.base b.base = true := by
+      simp only [elEq, List.all_eq_true]
+      intro f _
+      exact he (.inh f) (hI _)
+    have hm := he .massNumber (hI _)
+    have hp := he .element (hI _)
+    simp only [ifEq] at hm hp
+    cases a; cases b
+    simp only [Iso.mk.injEq]
+    exact ⟨(elEq_iff_eq hE _ _).mp hb, nbeq.mp hm, (elEq_iff_eq hE _ _).mp hp⟩
+  · rintro rfl
+    exact isoEq_refl c a
+
+/-- mixed comparison: decided on the inherited `Element` part alone -/
+theorem pyEq_mixed_iff {c : CmpCfg} (hE : ∀ f : EField, f ∈ c.elEq) (e : El) (i : Iso) :
+    (pyEq c (.el e) (.iso i) = true ↔ e = i.base) ∧ (pyEq c (.iso i) (.el e) = true ↔ e = i.base) :=
+  ⟨elEq_iff_eq hE e i.base, elEq_iff_eq hE e i.base⟩
+
+theorem pyEq_sameKind_iff {c : CmpCfg} (hE : ∀ f : EField, f ∈ c.elEq) (hI : ∀ f : IField, f ∈ c.isoEq)
+    {a b : Sp} (hk : SameKind a b) : pyEq c a b = true ↔ a = b := by
+  cases a <;> cases b <;> simp only [SameKind] at hk
+  · simp only [pyEq, Sp.el.injEq]; exact elEq_iff_eq hE _ _
+  · simp only [pyEq, Sp.iso.injEq]; exact isoEq_iff_eq hE hI _ _
+
+/-- the hash tuples of an `Element` and an `Isotope` have different lengths, hence differ -/
+theorem spHash_mixed_ne {c : CmpCfg} (hlen : c.elHash.length ≠ c.isoHash.length) (e : El) (i : Iso) :
+    spHash c (.el e) ≠ spHash c (.iso i) := by
+  intro h
+  have := congrArg List.length h
+  simp only [spHash, elHash, isoHash, List.length_map] at this
+  exact hlen this
+
 /-! ### certificates -/
 
 theorem idxOk_sound {F : Nat → Option Nat} :
